@@ -1640,6 +1640,11 @@ class Engine:
         return False
 
     def loop_(self, n, states, func):
+        over = self.cfg.get('loop_override')
+        if over is not None:
+            r = over(self, n, states, func)
+            if r is not None:
+                return r
         hook = self.cfg.get('loop_summary')
         if hook is not None and self.loop_depth == 1:
             # a loop whose complete effect on memory can be stated as one log entry ('map'): the entry is added
